@@ -745,9 +745,9 @@ pub fn main(seed: u64, tier: &str, only: Option<&str>) {
         run_c15("replay", f[0].parse().unwrap(), f[1].parse().unwrap(), &mut stats);
         return;
     }
-    let n = if tier == "thorough" { 10_000 } else { 500 };
+    let n = if tier == "thorough" { 10_000 * crate::out::thorough_scale() } else { 500 };
     for case in 0..n {
-        run_c15(&format!("b{}", case), seed, case, &mut stats);
+        run_c15(&format!("b{}", case), seed, case as u64, &mut stats);
     }
     out::stat("builder.cases", stats.cases);
     out::stat("builder.tree_nodes", stats.nodes);
